@@ -23,7 +23,7 @@ RULE = ("bit arrays / DNA strings of the widths above in the classes all-zero, a
         "capacity convert back to x and are left-padded with 0 / A. Contracts: each function's result equals the int oracle. "
         "Non-trivial: width >= 20 (multi-digit carries in the string path); distinct = hash of the case.")
 
-WIDTHS = [0, 1, 2, 7, 8, 9, 31, 32, 33, 63, 64, 65, 100, 257]
+WIDTHS = [0, 1, 2, 7, 8, 9, 15, 16, 17, 26, 27, 31, 32, 33, 52, 53, 54, 63, 64, 65, 100, 127, 128, 129, 257]
 
 
 def _val2(bits):
